@@ -38,6 +38,13 @@ type c02Bind struct {
 	cron  string
 }
 
+// c02Ctx: a binding context together with the index (within its type, declaration order) of the
+// binding that emitted it — names need not be unique within a type.
+type c02Ctx struct {
+	bc   bctx.BindingContext
+	decl int
+}
+
 type c02Exec struct {
 	e     *c02Env
 	rng   *Rng
@@ -244,18 +251,21 @@ func jsonShape(bc bctx.BindingContext) (keys map[string]int, objects int, ok boo
 }
 
 // execute runs one UpdateSnapshots over ctx and emits the lines.
-func (x *c02Exec) execute(kind string, ctx []bctx.BindingContext) bool {
+func (x *c02Exec) execute(kind string, cctx []c02Ctx) bool {
 	c := x.e.c
-	if len(ctx) == 0 {
+	if len(cctx) == 0 {
 		return true
 	}
 	var in []string
-	for _, bc := range ctx {
+	var ctx []bctx.BindingContext
+	for _, cc := range cctx {
+		bc := cc.bc
+		ctx = append(ctx, bc)
 		sy := 0
 		if bc.IsSynchronization() {
 			sy = 1
 		}
-		in = append(in, fmt.Sprintf("%d:%s:%d:%d", x.names.Id(bc.Binding), x.typeOf(bc), sy, x.renderObjects(bc)))
+		in = append(in, fmt.Sprintf("%d:%s:%d:%d:%d", x.names.Id(bc.Binding), x.typeOf(bc), sy, x.renderObjects(bc), cc.decl))
 	}
 	x.armed, x.readCount, x.reads, x.pending = true, 0, nil, nil
 	x.mutateAt = map[int]bool{}
@@ -275,37 +285,36 @@ func (x *c02Exec) execute(kind string, ctx []bctx.BindingContext) bool {
 	}
 	var got []string
 	for _, bc := range out {
-		var pairs []string
+		// the observation is what the hook reads from the binding context file: the keys of
+		// `snapshots` and the list lengths come from the rendered JSON, the identity of each list
+		// from the structure that was rendered
+		keys, objs, ok := jsonShape(bc)
 		type kv struct {
-			id, snap int
+			id   int
+			snap string
 		}
 		var kvs []kv
-		for name, snap := range bc.Snapshots {
-			b := x.kube(name)
-			kvs = append(kvs, kv{x.names.Id(name), x.snapID(c02RenderSnap(snap, b != nil && b.spec.flt > 0))})
+		for name, n := range keys {
+			snap, has := bc.Snapshots[name]
+			v := "shape"
+			if has && len(snap) == n {
+				b := x.kube(name)
+				v = fmt.Sprint(x.snapID(c02RenderSnap(snap, b != nil && b.spec.flt > 0)))
+			}
+			kvs = append(kvs, kv{x.names.Id(name), v})
 		}
 		sort.Slice(kvs, func(i, j int) bool { return kvs[i].id < kvs[j].id })
+		var pairs []string
 		for _, p := range kvs {
-			pairs = append(pairs, fmt.Sprintf("%d=%d", p.id, p.snap))
+			pairs = append(pairs, fmt.Sprintf("%d=%s", p.id, p.snap))
 		}
 		s := strings.Join(pairs, "+")
 		if len(pairs) == 0 {
 			s = "-"
 		}
-		// what the hook reads from the file must have the same shape
-		keys, objs, ok := jsonShape(bc)
-		shapeOK := ok && len(keys) == len(bc.Snapshots)
-		for name, snap := range bc.Snapshots {
-			if n, has := keys[name]; !has || n != len(snap) {
-				shapeOK = false
-			}
-		}
-		if bc.IsSynchronization() && bc.Metadata.Group == "" && objs != len(bc.Objects) {
-			shapeOK = false
-		}
 		o := fmt.Sprint(x.renderObjects(bc))
-		if !shapeOK {
-			o = "jsonshape"
+		if !ok || (bc.IsSynchronization() && bc.Metadata.Group == "" && objs != len(bc.Objects)) {
+			o = "shape"
 		}
 		got = append(got, fmt.Sprintf("%d:o=%s:s=%s", x.names.Id(bc.Binding), o, s))
 	}
@@ -326,6 +335,40 @@ func joinStrsSep(xs []string, sep string) string {
 	return strings.Join(xs, sep)
 }
 
+// declIndex: position of binding i (index into x.binds) among the bindings of its type.
+func (x *c02Exec) declIndex(i int) int {
+	n := 0
+	for j := 0; j < i; j++ {
+		if x.binds[j].typ == x.binds[i].typ {
+			n++
+		}
+	}
+	return n
+}
+
+func (x *c02Exec) declIndexByName(typ, name string) int {
+	for i, b := range x.binds {
+		if b.typ == typ && b.bindingName() == name {
+			return x.declIndex(i)
+		}
+	}
+	return 0
+}
+
+// bindingName: the name the operator gives the binding (unnamed bindings get the type's default).
+func (b c02Bind) bindingName() string {
+	if b.name != "" {
+		return b.name
+	}
+	switch b.typ {
+	case "k":
+		return "kubernetes"
+	case "s":
+		return "schedule"
+	}
+	return b.name
+}
+
 func (x *c02Exec) declLine() string {
 	per := map[string][]string{}
 	for _, b := range x.binds {
@@ -337,7 +380,7 @@ func (x *c02Exec) declLine() string {
 		if is == "" {
 			is = "-"
 		}
-		per[b.typ] = append(per[b.typ], fmt.Sprintf("%d:%d:%s", x.names.Id(b.name), x.groupID(b.group), is))
+		per[b.typ] = append(per[b.typ], fmt.Sprintf("%d:%d:%s", x.names.Id(b.bindingName()), x.groupID(b.group), is))
 	}
 	f := func(t string) string { return joinStrsSep(per[t], ";") }
 	return fmt.Sprintf("hook kube=%s sched=%s val=%s mut=%s", f("k"), f("s"), f("v"), f("m"))
@@ -373,7 +416,11 @@ func (x *c02Exec) yaml() string {
 				sb.WriteString(header + ":\n")
 				first = false
 			}
-			fmt.Fprintf(&sb, "- name: %s\n", b.name)
+			if b.name != "" {
+				fmt.Fprintf(&sb, "- name: %s\n", b.name)
+			} else {
+				fmt.Fprintf(&sb, "- allowFailure: false\n")
+			}
 			common(b)
 			body(b)
 		}
@@ -436,9 +483,13 @@ func (x *c02Exec) genBindings() {
 		_ = i
 		x.binds = append(x.binds, c02Bind{typ: "k", name: n, group: PickOne(rng, groups), incl: someKube(2), spec: spec})
 	}
-	for i := 1; i <= rng.Range(0, 2); i++ {
+	nsched := rng.Range(0, 2)
+	unnamed := rng.Chance(35) // unnamed schedule bindings are all called "schedule"
+	for i := 1; i <= nsched; i++ {
 		name := fmt.Sprintf("sb%d", i)
-		if rng.Chance(15) {
+		if unnamed {
+			name = ""
+		} else if rng.Chance(15) {
 			name = knames[0] // a schedule binding may carry the name of a kubernetes binding
 		}
 		x.binds = append(x.binds, c02Bind{typ: "s", name: name, group: PickOne(rng, groups), incl: someKube(3),
@@ -450,9 +501,13 @@ func (x *c02Exec) genBindings() {
 	if rng.Chance(40) {
 		x.binds = append(x.binds, c02Bind{typ: "m", name: "m1.verif.test", group: PickOne(rng, groups), incl: someKube(2)})
 	}
-	// intern in a fixed order; kubernetes binding ids double as monitor ids
+	x.internBindings()
+}
+
+// internBindings interns the names in declaration order; kubernetes binding ids double as monitor ids.
+func (x *c02Exec) internBindings() {
 	for i := range x.binds {
-		id := x.names.Id(x.binds[i].name)
+		id := x.names.Id(x.binds[i].bindingName())
 		if x.binds[i].typ == "k" {
 			x.binds[i].spec.id = id
 		}
@@ -482,7 +537,7 @@ func (x *c02Exec) takeEvents() []kemtypes.KubeEvent {
 	return res
 }
 
-func c02ExecCase(c *Case, rng *Rng) {
+func c02ExecCase(c *Case, rng *Rng, preset []c02Bind) {
 	rng = NewRng(rng.U64()) // the lib derives neighbouring cases from shifted copies of one stream
 	kem.DefaultSyncTime = time.Millisecond
 	e := &c02Env{c: c, cl: newC02Cluster(c.Idx)}
@@ -502,7 +557,12 @@ func c02ExecCase(c *Case, rng *Rng) {
 			e.op(e.cl.set(k, c02Val{a: rng.Range(1, 9), b: rng.Range(1, 9), lbl: rng.Intn(2)}))
 		}
 	}
-	x.genBindings()
+	if preset != nil {
+		x.binds = preset
+		x.internBindings()
+	} else {
+		x.genBindings()
+	}
 	x.cfg = &config.HookConfig{}
 	if err := x.cfg.LoadAndValidate([]byte(x.yaml())); err != nil {
 		c.Op("hook-load", "err "+firstLine(err.Error()))
@@ -554,19 +614,23 @@ func c02ExecCase(c *Case, rng *Rng) {
 			e.cl.waitWatches(mgr.GetMonitor(kc.Monitor.Metadata.MonitorId), b.spec, nil)
 		}
 	}
-	var all [][]bctx.BindingContext
-	var combined []bctx.BindingContext
+	var all [][]c02Ctx
+	var combined []c02Ctx
 	for _, info := range syncInfos {
-		combined = append(combined, info.BindingContext...)
-		all = append(all, info.BindingContext)
+		var part []c02Ctx
+		for _, bc := range info.BindingContext {
+			part = append(part, c02Ctx{bc, x.declIndexByName("k", bc.Binding)})
+		}
+		combined = append(combined, part...)
+		all = append(all, part)
 	}
 	if rng.Bool() {
 		if !x.execute("synchronization-combined", combined) {
 			return
 		}
 	} else {
-		for _, bc := range all {
-			if !x.execute("synchronization", bc) {
+		for _, part := range all {
+			if !x.execute("synchronization", part) {
 				return
 			}
 		}
@@ -574,7 +638,7 @@ func c02ExecCase(c *Case, rng *Rng) {
 	hc.UnlockKubernetesEvents()
 
 	// Event
-	var eventCtx []bctx.BindingContext
+	var eventCtx []c02Ctx
 	for tries := 0; tries < 3 && len(eventCtx) == 0; tries++ {
 		x.takeEvents()
 		k := c02Key{ns: rng.Range(1, 4), kind: rng.Range(1, 2), name: rng.Range(1, 4)}
@@ -582,7 +646,11 @@ func c02ExecCase(c *Case, rng *Rng) {
 		deadline := time.Now().Add(300 * time.Millisecond)
 		for time.Now().Before(deadline) && len(eventCtx) == 0 {
 			for _, ev := range x.takeEvents() {
-				hc.HandleKubeEvent(ev, func(info controller.BindingExecutionInfo) { eventCtx = append(eventCtx, info.BindingContext...) })
+				hc.HandleKubeEvent(ev, func(info controller.BindingExecutionInfo) {
+					for _, bc := range info.BindingContext {
+						eventCtx = append(eventCtx, c02Ctx{bc, x.declIndexByName("k", bc.Binding)})
+					}
+				})
 			}
 			time.Sleep(2 * time.Millisecond)
 		}
@@ -592,11 +660,16 @@ func c02ExecCase(c *Case, rng *Rng) {
 			return
 		}
 	}
-	// Schedule
-	var schedCtx []bctx.BindingContext
-	for _, b := range x.binds {
+	// Schedule: one crontab per binding, so the emitting binding is known although names may repeat
+	var schedCtx []c02Ctx
+	for i, b := range x.binds {
 		if b.typ == "s" {
-			hc.HandleScheduleEvent(b.cron, func(info controller.BindingExecutionInfo) { schedCtx = append(schedCtx, info.BindingContext...) })
+			d := x.declIndex(i)
+			hc.HandleScheduleEvent(b.cron, func(info controller.BindingExecutionInfo) {
+				for _, bc := range info.BindingContext {
+					schedCtx = append(schedCtx, c02Ctx{bc, d})
+				}
+			})
 		}
 	}
 	if len(schedCtx) > 0 {
@@ -605,7 +678,7 @@ func c02ExecCase(c *Case, rng *Rng) {
 		}
 	}
 	// admission
-	var admCtx []bctx.BindingContext
+	var admCtx []c02Ctx
 	if hc.AdmissionController != nil {
 		var ids []string
 		for id := range hc.AdmissionController.AdmissionLinks {
@@ -615,7 +688,11 @@ func c02ExecCase(c *Case, rng *Rng) {
 		for _, id := range ids {
 			hc.HandleAdmissionEvent(admission.Event{WebhookId: id, ConfigurationId: hc.AdmissionController.ConfigurationId,
 				Request: &admissionv1.AdmissionRequest{}},
-				func(info controller.BindingExecutionInfo) { admCtx = append(admCtx, info.BindingContext...) })
+				func(info controller.BindingExecutionInfo) {
+					for _, bc := range info.BindingContext {
+						admCtx = append(admCtx, c02Ctx{bc, x.declIndexByName(x.typeOf(bc), bc.Binding)})
+					}
+				})
 		}
 	}
 	if len(admCtx) > 0 {
@@ -624,8 +701,8 @@ func c02ExecCase(c *Case, rng *Rng) {
 		}
 	}
 	// a combined execution: contexts of several tasks of the hook in one run
-	var mix []bctx.BindingContext
-	for _, part := range [][]bctx.BindingContext{eventCtx, combined, schedCtx, admCtx} {
+	var mix []c02Ctx
+	for _, part := range [][]c02Ctx{eventCtx, combined, schedCtx, admCtx} {
 		if len(part) > 0 && rng.Chance(60) {
 			mix = append(mix, part...)
 		}
@@ -646,11 +723,36 @@ func c02ExecCase(c *Case, rng *Rng) {
 	if grouped {
 		c.Note("exec:group")
 	}
+	if unnamedSched(x.binds) {
+		c.Note("exec:same-named-schedule-bindings")
+	}
 	c.Nontrivial = len(combined) >= 2 && (grouped || maxIncl >= 1)
 	c.Desc = fmt.Sprintf("execution points over %d bindings (grouped=%v)", len(x.binds), grouped)
 }
 
 func runC02Exec(r *Run) {
-	n := r.N(80, 800)
-	r.Cases(100000, n, 0, func(c *Case, rng *Rng) { c02ExecCase(c, rng) })
+	n := r.N(200, 3000)
+	// corpus: two unnamed schedule bindings ("schedule"), only the second declares includeSnapshotsFrom
+	r.One(10, func(c *Case, rng *Rng) {
+		c02ExecCase(c, rng, []c02Bind{
+			{typ: "k", name: "kb1", spec: c02MonSpec{kind: 1, keep: true, flt: 1}},
+			{typ: "k", name: "kb2", group: "g1", spec: c02MonSpec{kind: 2, keep: false, flt: 1}},
+			{typ: "s", name: "", cron: "*/2 * * * *"},
+			{typ: "s", name: "", cron: "*/3 * * * *", incl: []string{"kb1"}},
+			{typ: "s", name: "", cron: "*/4 * * * *", group: "g1"},
+		})
+		c.Desc = "corpus: unnamed schedule bindings share the name `schedule`; only the later ones include snapshots"
+		c.Nontrivial = true
+	})
+	r.Cases(100000, n, 0, func(c *Case, rng *Rng) { c02ExecCase(c, rng, nil) })
+}
+
+func unnamedSched(bs []c02Bind) bool {
+	n := 0
+	for _, b := range bs {
+		if b.typ == "s" && b.name == "" {
+			n++
+		}
+	}
+	return n >= 2
 }
